@@ -124,8 +124,8 @@ func (s *Shape) JSONLawFile(pkg, name string) string {
 		f := s.Fields[i]
 		je := s.jsonExpect(f)
 		wrong := f.Kind.JWrong
-		fmt.Fprintf(&b, "\t\t\t{name: %q, jsonName: %q, visible: %v, ambig: %v, fails: %v, empty: [2]bool{%v, %v}, wrong: %q,\n\t\t\t\tvals: [2]any{%s, %s}},\n",
-			f.Name, je.Name, je.Visible, je.Ambig, f.Kind.JFail, f.Kind.JEmpty[0], f.Kind.JEmpty[1], wrong, vals[i][0], vals[i][1])
+		fmt.Fprintf(&b, "\t\t\t{name: %q, jsonName: %q, visible: %v, ambig: %v, fails: %v, empty: [2]bool{%v, %v}, lossy: [2]bool{%v, %v}, wrong: %q,\n\t\t\t\tvals: [2]any{%s, %s}},\n",
+			f.Name, je.Name, je.Visible, je.Ambig, f.Kind.JFail, f.Kind.JEmpty[0], f.Kind.JEmpty[1], f.Kind.JLossy[0], f.Kind.JLossy[1], wrong, vals[i][0], vals[i][1])
 	}
 	b.WriteString("\t\t},\n")
 	var lit, sels, tl []string
@@ -141,6 +141,19 @@ func (s *Shape) JSONLawFile(pkg, name string) string {
 	fmt.Fprintf(&b, "\t\tread: func(x any) []any { s := x.(%s); _ = s; return []any{%s} },\n", N, strings.Join(sels, ", "))
 	fmt.Fprintf(&b, "\t\tzero: func() any { return %s{} },\n", N)
 	fmt.Fprintf(&b, "\t\tasMutable: func(x any) any { return x.(%s).AsMutable() },\n", N)
+	var ml []string
+	for _, i := range rd {
+		f := s.Fields[i]
+		if !f.Apply() {
+			continue
+		}
+		mn := upper(f.Name)
+		if f.Kind.Emb {
+			mn = f.Name
+		}
+		ml = append(ml, fmt.Sprintf("%s: %s", mn, pkExpr(ridx[i], vals[i])))
+	}
+	fmt.Fprintf(&b, "\t\tmkMutable: func(b uint64) any { return %sMutable%s{%s} },\n", name, s.InstArgs(), strings.Join(ml, ", "))
 	if twin {
 		fmt.Fprintf(&b, "\t\ttwin: func(b uint64) any { return twin%s{%s} },\n", name, strings.Join(tl, ", "))
 	}
@@ -193,6 +206,7 @@ type jfield struct {
 	ambig    bool
 	fails    bool
 	empty    [2]bool
+	lossy    [2]bool
 	wrong    string
 	vals     [2]any
 }
@@ -205,6 +219,7 @@ type jspec struct {
 	read            func(x any) []any
 	zero            func() any
 	asMutable       func(x any) any
+	mkMutable       func(b uint64) any
 	twin            func(b uint64) any
 	ptrOf           func(x any) any
 	sliceOf         func(x any) any
@@ -378,6 +393,9 @@ func runJSpec(c *lawCtx, sp *jspec) {
 		}
 		menc, merr, mpan := safeMarshal(sp.asMutable(x))
 		c.check("Marshal/AsMutable", mpan == nil && sameEnc(enc, err, menc, merr), "%s: json.Marshal(x) = %s (err %v), json.Marshal(x.AsMutable()) = %s (err %v)", desc, enc, err, menc, merr)
+		// the Mutable value written out by hand with the same field values (embedded fields included)
+		lenc, lerr, lpan := safeMarshal(sp.mkMutable(bits))
+		c.check("Marshal/Mutable-literal", lpan == nil && sameEnc(enc, err, lenc, lerr), "%s: json.Marshal(x) = %s (err %v), json.Marshal(Mutable{the same field values}) = %s (err %v)", desc, enc, err, lenc, lerr)
 		penc, perr, ppan := safeMarshal(sp.ptrOf(x))
 		c.check("Marshal/pointer", ppan == nil && sameEnc(enc, err, penc, perr), "%s: json.Marshal(x) = %s (err %v), json.Marshal(&x) = %s (err %v)", desc, enc, err, penc, perr)
 		if sp.twin != nil {
@@ -394,7 +412,16 @@ func runJSpec(c *lawCtx, sp *jspec) {
 				c.note("Marshal/twin-skipped-ambiguous-omitempty")
 			}
 		}
-		if err == nil && pan == nil {
+		lossy := false
+		for i, f := range sp.fields {
+			if f.visible && f.lossy[bits>>uint(i)&1] {
+				lossy = true
+			}
+		}
+		if err == nil && pan == nil && lossy {
+			c.note("RoundTrip/skipped-value-not-faithfully-encodable")
+		}
+		if err == nil && pan == nil && !lossy {
 			senc, serr, _ := safeMarshal(sp.sliceOf(x))
 			c.check("Marshal/in-slice", serr == nil && string(senc) == "["+string(enc)+"]", "%s: json.Marshal([]S{x}) = %s (err %v), json.Marshal(x) = %s", desc, senc, serr, enc)
 			vis := func(v []any) []any {
